@@ -16,6 +16,7 @@ import (
 	"github.com/ajitpratap0/GoSQLX/pkg/sql/ast"
 	"github.com/ajitpratap0/GoSQLX/pkg/sql/security"
 	"github.com/ajitpratap0/GoSQLX/pkg/sql/tokenizer"
+	"github.com/ajitpratap0/GoSQLX/pkg/transform"
 )
 
 func init() { props["C09"] = runC09 }
@@ -345,6 +346,62 @@ func runC09(c *runCtx) {
 			res.sample(map[string]any{"held": a, "activity": acts})
 		}
 		ast.ReleaseAST(held)
+	}
+	// trees rewritten by the library's own rewriting rules (pkg/transform): one rule value applied to several trees that the
+	// caller keeps — what the rule adds to one tree is not shared with another, so releasing one leaves the others as they were
+	{
+		rules := []struct {
+			name string
+			mk   func() transform.Rule
+		}{
+			{"AddWhereFromSQL", func() transform.Rule { return transform.AddWhereFromSQL("tenant_id = 42 AND region IN ('eu', 'us')") }},
+			{"AddJoinFromSQL", func() transform.Rule { return transform.AddJoinFromSQL("LEFT JOIN u ON u.i = t.i") }},
+			{"AddOrderBy", func() transform.Rule { return transform.AddOrderBy("created_at", true) }},
+			{"SetLimit", func() transform.Rule { return transform.SetLimit(5) }},
+			{"SetOffset", func() transform.Rule { return transform.SetOffset(2) }},
+			{"ReplaceColumn", func() transform.Rule { return transform.ReplaceColumn("a", "renamed") }},
+			{"AddTableAlias", func() transform.Rule { return transform.AddTableAlias("t", "tt") }},
+			{"QualifyColumns", func() transform.Rule { return transform.QualifyColumns("t") }},
+			{"ReplaceTable", func() transform.Rule { return transform.ReplaceTable("t", "t_new") }},
+			{"AddSelectStar", func() transform.Rule { return transform.AddSelectStar() }},
+		}
+		stmts := []string{"SELECT a, b FROM t WHERE a > 1", "SELECT a FROM t", "SELECT total FROM t ORDER BY a", "SELECT a, COUNT(*) FROM t GROUP BY a", "SELECT b FROM t WHERE b IS NOT NULL LIMIT 3"}
+		for _, rl := range rules {
+			rule := rl.mk()
+			var trees []*ast.AST
+			var snaps []string
+			for _, sql := range stmts {
+				t, err := gosqlx.Parse(sql)
+				if err != nil || len(t.Statements) != 1 {
+					continue
+				}
+				if err := transform.Apply(t.Statements[0], rule); err != nil {
+					res.stat("transform-rule-not-applicable:" + rl.name)
+					ast.ReleaseAST(t)
+					continue
+				}
+				trees = append(trees, t)
+			}
+			for _, t := range trees {
+				snaps = append(snaps, dumpNode(t))
+			}
+			res.count("transform|"+rl.name, true)
+			for i := range trees {
+				ast.ReleaseAST(trees[i])
+				for k := 0; k < 3; k++ {
+					if o, err := gosqlx.Parse(stmts[(i+k)%len(stmts)]); err == nil {
+						ast.ReleaseAST(o)
+					}
+				}
+				for j := i + 1; j < len(trees); j++ {
+					if dumpNode(trees[j]) != snaps[j] {
+						res.fail("held-tree-modified:transform:"+rl.name, "several trees were rewritten with one rule value; releasing one of them changed another that is still held",
+							map[string]any{"rule": rl.name, "released": stmts[i], "held": stmts[j]}, map[string]any{"held_before": truncate(snaps[j], 300), "held_now": truncate(dumpNode(trees[j]), 300)})
+						break
+					}
+				}
+			}
+		}
 	}
 	// two trees held at the same time are distinct objects, whatever happened before (including
 	// cancelled context-aware parses at every poll index)
